@@ -187,7 +187,13 @@ func cmdRun(prop, tier, only string, verbose bool, workers int, solverBin string
 					tr = append(tr, "#interp:"+out.kind+":"+out.msg)
 				}
 				ref := &jobRef{kind: kind, hr: hr, ce: ce, h: h, conc: tr}
-				jobsByKey[key] = append(jobsByKey[key], replayJob{Harness: h.Name(), Inputs: inputs})
+				var nativeInputs []InputVal
+				for _, iv := range inputs {
+					if !iv.Stub {
+						nativeInputs = append(nativeInputs, iv)
+					}
+				}
+				jobsByKey[key] = append(jobsByKey[key], replayJob{Harness: h.Name(), Inputs: nativeInputs})
 				refsByKey[key] = append(refsByKey[key], ref)
 			}
 			for _, id := range sortedOblKeys(hr.Obls) {
